@@ -1430,7 +1430,17 @@ func (x *Exec) valEq(st *State, a, b Value, t types.Type) *Term {
 		}
 		if av.Obj.Opaque || bp.Obj.Opaque {
 			// identity of a havocked / returned pointer is unknown: equal iff both nil, or both non-nil and "same" (unconstrained)
-			return Or(And(av.Nil, bp.Nil), And(Not(av.Nil), Not(bp.Nil), Fresh("ptreq", SBool)))
+			// (one unknown per pair of objects, so that an equality assumed from a callee's contract is the one asked for later)
+			ia, ib := int64(av.Obj.ID), int64(bp.Obj.ID)
+			if ia > ib {
+				ia, ib = ib, ia
+			}
+			pa, pb := fmt.Sprint(av.Path), fmt.Sprint(bp.Path)
+			if int64(av.Obj.ID) != ia {
+				pa, pb = pb, pa
+			}
+			same := Const(fmt.Sprintf("ptreq!%d%s!%d%s", ia, sanitize(pa), ib, sanitize(pb)), SBool)
+			return Or(And(av.Nil, bp.Nil), And(Not(av.Nil), Not(bp.Nil), same))
 		}
 		return And(av.Nil, bp.Nil)
 	case *IfaceVal:
